@@ -143,6 +143,34 @@ def run(ctx: core.Ctx):
                 ctx.disagree("F", "mean_grp", dict(xx=xx, groups=list(lab), nodata=nd), a, got)
                 break
 
+    # ---- mean_grp accumulates in 64 bits whatever the input dtype: groups whose sum of valid cells leaves the range in which
+    # float32 adds exactly (2^24) must still give the correctly rounded mean (theorems GenKMeanGrpB: exact up to 2^53)
+    for k in range(ctx.budget(40, 300)):
+        nd = rng.choice([-9999, 0, 255])
+        big = rng.choice([2 ** 24, 2 ** 24 + 8, 3 * 2 ** 23, 2 ** 25])
+        ncell = rng.choice([4, 5, 8, 16])
+        cells = [big] + [rng.choice([1, 1, 2, 3]) for _ in range(ncell - 1)]
+        rng.shuffle(cells)
+        xx = []
+        for v in cells:
+            xx.append(v)
+            if rng.random() < 0.3:
+                xx.append(nd)
+        xx += [5, 3, 7, 12]
+        groups = [0] * (len(xx) - 4) + [1, 1, 1, 1]
+        for dt in ("float32", "int32", "int64"):
+            arr = np.array(xx, dtype=dt)
+            out = mean_grp(arr, np.array(groups, dtype="int16"), 2.0, float(nd))
+            vals = [v for v in xx[:-4] if v != nd]
+            want0 = np.float32(np.float64(sum(vals)) / len(vals))
+            v1 = [v for v in xx[-4:] if v != nd]
+            want1 = np.float32(np.float64(sum(v1)) / len(v1)) if v1 else np.float32(nd)
+            ctx.case(("grp-wide", tuple(xx), nd, dt), sample=dict(kernel="mean_grp", xx=xx[:8], dtype=dt, nodata=nd))
+            ctx.count("mean_grp wide sums")
+            if not (np.all(out[:-4] == want0) and np.all(out[-4:] == want1)):
+                ctx.fail("mean_grp", dict(xx=xx, groups=groups, nodata=nd, dtype=dt), out.tolist(), dict(group0=float(want0), group1=float(want1)),
+                         note="mean of the valid cells of the group (64-bit accumulation: exact sum, one rounding of the quotient)")
+
     # ---- accessor level (R): eager and dask, window dropped positions
     import dask.array as da_
     for _ in range(ctx.budget(6, 40)):
